@@ -26,11 +26,22 @@ ASSUMPTIONS = [
 ]
 
 
-def decode(e):
+def decode(e, shared=None):
+    """shared: dict used to hand out ONE object for all equal sub-structures (the value then holds the same dict / list
+    object at several places - not a cycle)"""
     if isinstance(e, list):
+        key = None
+        if shared is not None:
+            key = json.dumps(e, sort_keys=True, default=str)
+            if key in shared:
+                return shared[key]
         if e[0] == "d":
-            return {k: decode(v) for k, v in e[1]}
-        return [decode(v) for v in e[1]]
+            out = {k: decode(v, shared) for k, v in e[1]}
+        else:
+            out = [decode(v, shared) for v in e[1]]
+        if shared is not None:
+            shared[key] = out
+        return out
     return e
 
 
@@ -109,9 +120,11 @@ _PRINTERS = {}
 def evaluate(case):
     import ak.ppobj as P
     mode = case["mode"]
-    value = decode(case["value"])
+    value = decode(case["value"], {} if case.get("share") else None)
     f = []
     info = set([mode])
+    if case.get("share"):
+        info.add("equal_substructures_are_one_object")
     scan(value, 0, info)
     try:
         # one long-lived printer per mode (the way the package itself uses pp / PPWrap._PPRINTER); the same
@@ -269,10 +282,27 @@ def st_wraplist(draw, mode):
     return wrap(["l", items], wrappers)
 
 
+def st_repeated(mode):
+    """a sub-structure that occurs at several places of the value"""
+    small = st.one_of(
+        st.lists(st.tuples(st.sampled_from(["x", "y", "k"]), st.integers(0, 3) | st.none() | st.text("ab", max_size=3)), min_size=1,
+                 max_size=3, unique_by=lambda kv: kv[0]).map(lambda kv: ["d", [list(p) for p in kv]]),
+        st.lists(st.integers(0, 9) | st.booleans(), min_size=1, max_size=4).map(lambda x: ["l", x]),
+        st_threshold(mode))
+    def build(sub, other, shape):
+        if shape == 0:
+            return ["l", [sub, other, sub]]
+        if shape == 1:
+            return ["d", [["a", sub], ["b", sub], ["c", other]]]
+        return ["l", [["d", [["k", sub]]], sub, ["l", [sub, 1]]]]
+    return st.builds(build, small, st_scalar() | small, st.integers(0, 2))
+
+
 def st_case():
     def for_mode(mode):
         return st.one_of(st_value(mode), st_value(mode), st_threshold(mode), st_threshold(mode),
-                         st_wraplist(mode)).map(lambda v: {"mode": mode, "value": v})
+                         st_wraplist(mode), st_repeated(mode)).flatmap(
+            lambda v: st.booleans().map(lambda sh: {"mode": mode, "value": v, "share": sh}))
     return st.sampled_from(["json", "py"]).flatmap(for_mode)
 
 
